@@ -10,6 +10,9 @@ Fixpoint allpos (l : list R) : Prop := match l with [] => True | x :: t => 0 < x
 Lemma allpos_nonzero l : allpos l -> nonzero l.
 Proof. induction l as [|x t IH]; cbn; [auto|]. intros [Hx Ht]. split; [lra | auto]. Qed.
 
+Lemma seq_0_S n : (1 <= n)%nat -> seq 0 n = 0%nat :: seq 1 (n - 1).
+Proof. destruct n as [|m]; [lia|]. intros _. cbn [seq]. rewrite Nat.sub_succ, Nat.sub_0_r. reflexivity. Qed.
+
 Section Generic.
   Variables a b c r w : nat -> R.
   Variable n : nat.
@@ -64,12 +67,12 @@ Section Generic.
 
   Theorem all_pivots_pos : (1 <= n)%nat -> allpos (all_pivots (rowsf 0 n)).
   Proof.
-    intros Hn. destruct n as [|n'] eqn:En; [lia|]. cbn [rowsf seq map all_pivots]. rewrite <- En in *.
+    intros Hn. unfold rowsf. rewrite (seq_0_S n Hn). cbn [map all_pivots].
     assert (Hinv0 : inv 0 (b 0%nat)).
-    { unfold inv. pose proof (Hcol 0%nat ltac:(lia)) as H0. unfold colsum in H0. cbn [Nat.ltb Nat.leb] in H0.
-      destruct (Nat.ltb 1 n); lra. }
+    { unfold inv. pose proof (Hcol 0%nat ltac:(lia)) as H0. unfold colsum in H0.
+      destruct (Nat.ltb_spec 0 0); [lia|]. destruct (Nat.ltb 1 n); lra. }
     split; [apply (inv_pos 0); [lia | exact Hinv0]|].
-    fold (rowsf 1 n'). replace (c 0%nat) with (c (1 - 1)%nat) by reflexivity.
+    fold (rowsf 1 (n - 1)). replace (c 0%nat) with (c (1 - 1)%nat) by reflexivity.
     apply pivots_pos; [lia | lia | exact Hinv0].
   Qed.
 End Generic.
@@ -120,6 +123,40 @@ Section SchemeInstance.
     apply Rmult_le_pos; [nra | left; apply Rinv_0_lt_compat; lra].
   Qed.
 
+  (** the weighted column sums of the scheme: conservation leaves only w_j/dt and the absorbing term *)
+  Lemma colsum_value j : (j < N)%nat ->
+    colsum (coef_a xs Vf Mf use_delj) (coef_b xs Vf Mf nu c0 c1 dt use_delj) (coef_c xs Vf Mf use_delj) (trap_w xs) N j
+    = trap_w xs j * / dt + trap_w xs j * bcterm xs Mf nu c0 c1 j.
+  Proof.
+    intros Hj. unfold colsum, coef_a, coef_b, coef_b0, coef_c, bcterm. fold (Scheme.N xs). unfold Scheme.N. numR.
+    pose proof (w_dfactor xs HN Hdx j Hj) as Hwd.
+    set (A := atemp xs Vf Mf use_delj) in *. set (C := ctemp xs Vf Mf use_delj) in *.
+    set (w := trap_w xs) in *. set (df := dfactor xs) in *.
+    assert (E3 : forall t, w j * (df j * t) = t) by (intros t; rewrite <- Rmult_assoc, Hwd; ring).
+    destruct (Nat.ltb_spec (S j) N) as [HS|HS]; destruct (Nat.ltb_spec 0 j) as [H0|H0].
+    - destruct (Nat.eqb_spec (S j) 0); [lia|]. destruct (Nat.eqb_spec (j - 1) (N - 1)); [lia|].
+      destruct (Nat.ltb_spec j (N - 1)); [|lia]. destruct (Nat.eqb_spec j 0); [lia|]. destruct (Nat.eqb_spec j (N - 1)); [lia|].
+      replace (S j - 1)%nat with j by lia.
+      assert (E1 : w (S j) * (- df (S j) * A j) = - A j) by (pose proof (w_dfactor xs HN Hdx (S j) ltac:(lia)) as Hq; fold w df in Hq; replace (w (S j) * (- df (S j) * A j)) with (- (w (S j) * df (S j)) * A j) by ring; rewrite Hq; ring).
+      assert (E2 : w (j - 1)%nat * (- df (j - 1)%nat * C (j - 1)%nat) = - C (j - 1)%nat) by (pose proof (w_dfactor xs HN Hdx (j - 1)%nat ltac:(lia)) as Hq; fold w df in Hq; replace (w (j - 1)%nat * (- df (j - 1)%nat * C (j - 1)%nat)) with (- (w (j - 1)%nat * df (j - 1)%nat) * C (j - 1)%nat) by ring; rewrite Hq; ring).
+      rewrite E1, E2. unfold Rdiv.
+      replace (w j * (1 * / dt + (df j * A j + df j * C (j - 1)%nat + 0 + 0))) with (w j * / dt + w j * (df j * A j) + w j * (df j * C (j - 1)%nat)) by ring.
+      rewrite !E3. ring.
+    - assert (j = 0)%nat by lia. subst j. destruct (Nat.eqb_spec 0 0) as [_|Hx]; [|lia]. destruct (Nat.eqb_spec 0 (N - 1)); [lia|]. destruct (Nat.ltb_spec 0 (N - 1)); [|lia].
+      destruct (Nat.eqb_spec 1 0); [lia|]. replace (1 - 1)%nat with 0%nat by lia.
+      assert (E1 : w 1%nat * (- df 1%nat * A 0%nat) = - A 0%nat) by (pose proof (w_dfactor xs HN Hdx 1%nat ltac:(lia)) as Hq; fold w df in Hq; replace (w 1%nat * (- df 1%nat * A 0%nat)) with (- (w 1%nat * df 1%nat) * A 0%nat) by ring; rewrite Hq; ring).
+      rewrite E1. unfold Rdiv.
+      replace (w 0%nat * (1 * / dt + (df 0%nat * A 0%nat + 0 + bc0 xs Mf nu c0 + 0))) with (w 0%nat * / dt + w 0%nat * (df 0%nat * A 0%nat) + w 0%nat * bc0 xs Mf nu c0) by ring.
+      rewrite E3. ring.
+    - assert (Ej : (j = N - 1)%nat) by lia. destruct (Nat.ltb_spec j (N - 1)); [lia|]. destruct (Nat.eqb_spec j 0); [lia|].
+      destruct (Nat.eqb_spec j (N - 1)); [|lia]. destruct (Nat.eqb_spec (j - 1) (N - 1)); [lia|].
+      assert (E2 : w (j - 1)%nat * (- df (j - 1)%nat * C (j - 1)%nat) = - C (j - 1)%nat) by (pose proof (w_dfactor xs HN Hdx (j - 1)%nat ltac:(lia)) as Hq; fold w df in Hq; replace (w (j - 1)%nat * (- df (j - 1)%nat * C (j - 1)%nat)) with (- (w (j - 1)%nat * df (j - 1)%nat) * C (j - 1)%nat) by ring; rewrite Hq; ring).
+      rewrite E2. unfold Rdiv.
+      replace (w j * (1 * / dt + (0 + df j * C (j - 1)%nat + 0 + bc1 xs Mf nu c1))) with (w j * / dt + w j * (df j * C (j - 1)%nat) + w j * bc1 xs Mf nu c1) by ring.
+      rewrite E3. ring.
+    - lia.
+  Qed.
+
   Theorem line_pivots_positive (phi : list R) :
     allpos (all_pivots (line_rows xs Vf Mf nu c0 c1 dt use_delj phi)).
   Proof.
@@ -131,20 +168,10 @@ Section SchemeInstance.
       pose proof (dfactor_pos j ltac:(lia)). pose proof (Hat (j - 1)%nat ltac:(lia)). nra.
     - intros j Hj. unfold coef_c. fold (Scheme.N xs). unfold Scheme.N. destruct (Nat.eqb_spec j (N - 1)); [lia|]. numR.
       pose proof (dfactor_pos j ltac:(lia)). pose proof (Hct j ltac:(lia)). nra.
-    - intros j Hj. unfold colsum, coef_a, coef_b, coef_b0, coef_c. fold (Scheme.N xs). unfold Scheme.N. numR.
-      pose proof (trap_w_pos j Hj) as Hwj. pose proof (w_dfactor xs HN Hdx j Hj) as Hwd.
-      pose proof bc0_nonneg as Hb0. pose proof bc1_nonneg as Hb1.
-      assert (Hidt : 0 < 1 / dt) by (apply Rdiv_lt_0_compat; lra).
-      destruct (Nat.ltb_spec (S j) N) as [HS|HS]; destruct (Nat.ltb_spec 0 j) as [H0|H0];
-      destruct (Nat.eqb_spec (S j) 0); try lia;
-      destruct (Nat.eqb_spec (j - 1) (N - 1)); try lia;
-      destruct (Nat.ltb_spec j (N - 1)); try lia;
-      destruct (Nat.eqb_spec j 0); try lia; destruct (Nat.eqb_spec j (N - 1)); try lia;
-      try (pose proof (w_dfactor xs HN Hdx (S j) ltac:(lia)) as HwS);
-      try (pose proof (w_dfactor xs HN Hdx (j - 1)%nat ltac:(lia)) as HwP);
-      replace (S j - 1)%nat with j in * by lia;
-      set (A := atemp xs Vf Mf use_delj j) in *; set (Cp := ctemp xs Vf Mf use_delj (j - 1)) in *;
-      set (wj := trap_w xs j) in *; set (dj := dfactor xs j) in *; nra.
+    - intros j Hj. rewrite colsum_value by exact Hj.
+      pose proof (trap_w_pos j Hj) as Hwj. pose proof bc0_nonneg as Hb0. pose proof bc1_nonneg as Hb1.
+      assert (Hidt : 0 < / dt) by (apply Rinv_0_lt_compat; lra).
+      unfold bcterm. destruct (Nat.eqb j 0), (Nat.eqb j (N - 1)); nra.
   Qed.
 
   Corollary line_pivots_nonzero (phi : list R) : nonzero (all_pivots (line_rows xs Vf Mf nu c0 c1 dt use_delj phi)).
